@@ -10,7 +10,7 @@ git -C /repo worktree add --detach "$W" HEAD -q || exit 2
 cleanup() { git -C /repo worktree remove --force "$W" 2>/dev/null; rm -rf "$W" "$D"; }
 D=$(mktemp -d /tmp/csdemo_XXXXXX)
 cp -r "$SEED/demo/." "$D/"
-grep -rl "/repo" "$D" --include=Cargo.toml | xargs -r sed -i "s#/repo#$W#g"
+grep -rlI "/repo" "$D" | xargs -r sed -i "s#/repo/#$W/#g; s#/repo\"#$W\"#g"
 cp "$W/Cargo.lock" "$D/Cargo.lock" 2>/dev/null
 DEMOCMD=${DEMOCMD:-"cargo test --offline"}
 [ -f "$SEED/demo/CMD" ] && DEMOCMD=$(cat "$SEED/demo/CMD")
